@@ -125,3 +125,25 @@ def c13(run):
                              "the control points, both rotated rectangles; non-trivial = at least 3 control points"}
     run.model_check("MC_Hull", cfg=tier_n(run, "MC_Hull.cfg", "MC_Hull_thorough.cfg"), timeout=3000)
     family_random(run, "hull", "Trace_Hull", tier_n(run, 8000, 300000))
+
+FAMILY_MODULE["measure"] = "Trace_Measure"
+
+
+def _canary_measure(e):
+    if not e["g"]:
+        return None
+    e["area2"] += 1
+    return e
+
+
+CANARY["measure"] = _canary_measure
+
+
+@prop("C14")
+def c14(run):
+    run.assumptions += ["exact on lattices N<=16 and exact-similarity images up to 2^10; area compared exactly (2*Area integer), "
+                        "length to m/256 over m segments, centroid to 2^-9 of the lattice unit (not 1e-9 relative)"]
+    run.extra_cov = {"rule": "random valid lattice geometries of all types, polygons with 0..2 holes, multi-geometries with empty "
+                             "members, mixed collections, every ring start/direction/hole order (variants), ForceCW/CCW/Reverse, all "
+                             "coordinate types, exact-similarity images, Area with a transform; non-trivial = non-empty"}
+    family_random(run, "measure", "Trace_Measure", tier_n(run, 10000, 400000))
